@@ -108,7 +108,15 @@ def pins(ctx):
         {"server.start_server": [None], "server.open_connection": [REAL_RELAY_LIMIT],
          "pop3_server.start_server": [None], "pop3_server.open_connection": [None],
          "user_server.start_server": [None]})
-    ctx.extra["pins"] = {"checked": 14, "broken": broken}
+    # the constants written in Model/Frame.v (real_cfg)
+    try:
+        out = ctx.coq.eval_cases("c19k", "From Asimap Require Import Model.Frame.\n"
+                                 "Eval vm_compute in (maxin real_cfg, rlimit real_cfg, maxdigits real_cfg).\n")
+        pin("Model/Frame.v real_cfg (maxin, rlimit, maxdigits)", [int(x) for x in re.findall(r"\d+", core.parse_coq_values(out)[0])],
+            [K.MAX_INPUT_SIZE, asyncio.streams._DEFAULT_LIMIT, sys.get_int_max_str_digits()])
+    except core.CoqError as e:
+        broken.append({"pin": "Model/Frame.v real_cfg", "source_now": "coq error", "model_assumes": e.log[-300:]})
+    ctx.extra["pins"] = {"checked": 15, "broken": broken}
     for b in broken:
         ctx.proof_broken.append({"what": "pin: a constant the model of C19 assumes has changed in the source", **b})
     return not broken
@@ -267,6 +275,14 @@ class Item:
             raise ValueError(kind)
 
 
+class Expect:
+    """a corpus stream with hand-written expectations (no Spec-shaped items)"""
+    kind, plus, coq = "corpus", False, None
+
+    def __init__(self, msgs, writes):
+        self.msgs, self.writes, self.raw = msgs, writes, b""
+
+
 WORDS = [b"NOOP", b"LOGIN", b"u", b"APPEND", b"inbox", b"FETCH", b"1:*", b"(FLAGS)", b"x", b"SELECT", b"\"a b\"",
          b"UID", b"STORE", b"+FLAGS", b"(\\Seen)", b"{", b"}", b"{3", b"3}", b"+", b"{+}", b"{}", b"\r", b"\n", b"{3}x"]
 LOOKALIKE = [b"\r\nz9 LOGOUT\r\n", b"\r\n", b"{3}\r\nabc", b"a2 NOOP\r\n", b"\r\n\r\n", b"{99+}\r\n", b" ", b"\r", b"\n"]
@@ -419,29 +435,34 @@ def gen_malformed(rng):
     return b"".join(rng.choice(alpha) for _ in range(n))
 
 
+NOOP2, NOOP3 = b"a2 NOOP", b"a3 NOOP"
 CORPUS = [
-    # (name, maxin, rlimit, stream)
+    # (name, MAX_INPUT_SIZE, reader limit, stream, what the property demands: (commands handed on, octets written) | None)
     ("D15 witness: over-limit synchronising literal, two commands behind it", 20, REAL_RLIMIT,
-     b"a1 LOGIN u {50}\r\na2 NOOP\r\na3 NOOP\r\n"),
+     b"a1 LOGIN u {50}\r\na2 NOOP\r\na3 NOOP\r\n", ([NOOP2, NOOP3], [BAD_LIT])),
     ("over-limit LITERAL+ whose octets look like commands", 20, REAL_RLIMIT,
-     b"a1 LOGIN u {50+}\r\n" + b"x" * 20 + b"\r\nz9 LOGOUT\r\n" + b"x" * 17 + b"\r\na2 NOOP\r\na3 NOOP\r\n"),
-    ("over-limit LITERAL+ cut short by EOF", 20, REAL_RLIMIT, b"a1 X {50+}\r\nxxxxxxxx\r\na2 NOOP\r\n"),
+     b"a1 LOGIN u {50+}\r\n" + b"x" * 20 + b"\r\nz9 LOGOUT\r\n" + b"x" * 17 + b"\r\na2 NOOP\r\na3 NOOP\r\n",
+     ([NOOP2, NOOP3], [BAD_LIT, BAD_EMPTY])),
+    ("over-limit LITERAL+ cut short by EOF", 20, REAL_RLIMIT, b"a1 X {50+}\r\nxxxxxxxx\r\na2 NOOP\r\n", ([], [BAD_LIT])),
     ("accumulated size over the limit, rest of the command behind it", 20, REAL_RLIMIT,
-     b"a1 X {18}\r\n" + b"x" * 18 + b"\r\na2 NOOP\r\n"),
+     b"a1 X {18}\r\n" + b"x" * 18 + b"\r\na2 NOOP\r\n", ([NOOP2], [CONT, BAD_CMD, BAD_EMPTY])),
     ("white space: trailing blanks, blank lines, announcement followed by blanks", 64, REAL_RLIMIT,
-     b"a1 NOOP  \r\n\r\n  \r\na2 X {3}  \r\nabc\r\n"),
+     b"a1 NOOP  \r\n\r\n  \r\na2 X {3}  \r\nabc\r\n", None),
     ("literal text that looks like a command and like an announcement", 64, REAL_RLIMIT,
-     b"a1 APPEND x {12}\r\n\r\nz LOGOUT\r\n {5+}\r\n{9}\r\n\r\na2 NOOP\r\n"),
-    ("zero-length literals", 64, REAL_RLIMIT, b"a1 X {0}\r\n {0+}\r\n\r\na2 NOOP\r\n"),
-    ("line longer than the reader's limit", 64, 40, b"a1 NOOP\r\na2 " + b"x" * 60 + b"\r\na3 NOOP\r\n"),
-    ("line longer than the reader's limit, no terminator", 64, 40, b"a1 NOOP\r\na2 " + b"x" * 60),
-    ("line of exactly the reader's limit", 64, 40, b"a2 " + b"x" * 37 + b"\r\na3 NOOP\r\n"),
-    ("line one longer than the reader's limit", 64, 40, b"a2 " + b"x" * 38 + b"\r\na3 NOOP\r\n"),
-    ("more digits than int() converts", 64, REAL_RLIMIT, b"a1 X {" + b"1" * 4301 + b"}\r\na2 NOOP\r\n"),
-    ("as many digits as int() converts", 64, REAL_RLIMIT, b"a1 X {" + b"0" * 4299 + b"2}\r\nhi\r\na2 NOOP\r\n"),
+     b"a1 APPEND x {12}\r\n\r\nz LOGOUT\r\n {5+}\r\n{9}\r\n\r\na2 NOOP\r\n",
+     ([b"a1 APPEND x {12}\r\n\r\nz LOGOUT\r\n {5+}\r\n{9}\r\n", NOOP2], [CONT])),
+    ("zero-length literals", 64, REAL_RLIMIT, b"a1 X {0}\r\n {0+}\r\n\r\na2 NOOP\r\n",
+     ([b"a1 X {0}\r\n {0+}\r\n", NOOP2], [CONT])),
+    ("line longer than the reader's limit", 64, 40, b"a1 NOOP\r\na2 " + b"x" * 60 + b"\r\na3 NOOP\r\n",
+     ([b"a1 NOOP"], [BAD_LINE])),
+    ("line longer than the reader's limit, no terminator", 64, 40, b"a1 NOOP\r\na2 " + b"x" * 60, ([b"a1 NOOP"], [BAD_LINE])),
+    ("line of exactly the reader's limit", 64, 40, b"a2 " + b"x" * 37 + b"\r\na3 NOOP\r\n", ([b"a2 " + b"x" * 37, NOOP3], [])),
+    ("line one longer than the reader's limit", 64, 40, b"a2 " + b"x" * 38 + b"\r\na3 NOOP\r\n", ([], [BAD_LINE])),
+    ("more digits than int() converts", 64, REAL_RLIMIT, b"a1 X {" + b"1" * 4301 + b"}\r\na2 NOOP\r\n", None),
+    ("as many digits as int() converts", 64, REAL_RLIMIT, b"a1 X {" + b"0" * 4299 + b"2}\r\nhi\r\na2 NOOP\r\n", None),
     ("the real limit: an announcement just over it and one at it", REAL_MAXIN, REAL_RLIMIT,
-     b"a1 APPEND x {10485761}\r\na2 NOOP\r\na3 APPEND x {10485760}\r\n"),
-    ("bare CR and LF inside lines", 64, REAL_RLIMIT, b"a1 X\ry\nz\r\r\na2 {1}\r\n\n\r\r\n"),
+     b"a1 APPEND x {10485761}\r\na2 NOOP\r\na3 APPEND x {10485760}\r\n", ([NOOP2], [BAD_LIT, CONT])),
+    ("bare CR and LF inside lines", 64, REAL_RLIMIT, b"a1 X\ry\nz\r\r\na2 {1}\r\n\n\r\r\n", None),
 ]
 
 
@@ -551,8 +572,8 @@ def front_level(ctx, loop, proof_ok):
     S, U, P, K = mods()
     rng = ctx.rng
     streams = []  # (name, maxin, rlimit, raw, items|None)
-    for (nm, m, lim, raw) in CORPUS:
-        streams.append((nm, m, lim, raw, None))
+    for (nm, m, lim, raw, want) in CORPUS:
+        streams.append((nm, m, lim, raw, None if want is None else [Expect(*want)]))
     M = 24
     for raw, items in gen_boundary(rng, M):
         streams.append(("boundary", M, REAL_RLIMIT, raw, items))
@@ -653,7 +674,7 @@ def front_level(ctx, loop, proof_ok):
                 if got_m != want_m or got_w != want_w:
                     viol(ctx, "the front-end does not relay the commands the stream denotes "
                                   "(reference tokenization vs IMAPClient.start)",
-                                  {"stream": repr(raw), "items": [(i.kind, repr(i.raw)) for i in items],
+                                  {"stream": repr(raw), "case": nm, "items": [(i.kind, repr(i.raw)) for i in items],
                                    "MAX_INPUT_SIZE": m, "reader_limit": lim,
                                    "commands_denoted": [repr(x) for x in want_m],
                                    "commands_handed_on": [repr(x) for x in got_m],
@@ -661,8 +682,9 @@ def front_level(ctx, loop, proof_ok):
                                    "writes_observed": [repr(x) for x in got_w]})
                 for i in items:
                     kinds[i.kind + ("+" if i.plus else "")] = kinds.get(i.kind + ("+" if i.plus else ""), 0) + 1
-                iterms.append(f"({cz(m)}, {cz(lim)}, [{'; '.join(i.coq for i in items)}], {cb(raw)}, {cevs(ref_events)})")
-                imeta.append((m, lim, raw, items, ref_events))
+                if all(i.coq for i in items):
+                    iterms.append(f"({cz(m)}, {cz(lim)}, [{'; '.join(i.coq for i in items)}], {cb(raw)}, {cevs(ref_events)})")
+                    imeta.append((m, lim, raw, items, ref_events))
             else:
                 kinds[nm if nm == "malformed" else "corpus"] = kinds.get(nm if nm == "malformed" else "corpus", 0) + 1
             os_ = sorted(seen.items())
